@@ -313,7 +313,7 @@ PROPS["C12"] = dict(
     rule=("two real nodes A,B on a loss-free network; configuration cell drawn from protocol version 1-5 on either side (v1 = encryption version 0), no key or "
           "a 16/24/32-byte key, compression on/off, label none/3 bytes/255 bytes, msgpack time format on either side, UDPBufferSize 512-65000, node names of "
           "1-128 bytes incl. non-UTF-8, push/pull user state of nil/0/1/15/16/17/100/4095/4096/4097/65536 bytes (thorough up to 1 MiB) on either side, ack "
-          "payload 0-1000 bytes; 1-10 sends: SendBestEffort 0-8000 bytes, SendReliable 0..65536 bytes at block boundaries (thorough up to 4 MiB), gossip user "
+          "payload 0-1000 bytes; 1-10 sends: SendBestEffort 0-8000 bytes, SendReliable 0..65536 bytes at block boundaries (thorough up to 4 MiB), the older entry points SendTo / SendToAddress / SendToUDP / SendToTCP, gossip user "
           "broadcasts, UpdateNode with 0-512 bytes of metadata; byte patterns incompressible / zeros / text / magic first byte (244, 0, 7, 9, 10, 12, 13). "
           "Oracle: B's delegate receives exactly the multiset of user messages A was given, both sides' MergeRemoteState get the other's LocalState bytes, "
           "NotifyPingComplete carries A's ack payload, B's view of A has A's name, metadata and version vector; and the independent wire mirror decodes every "
@@ -409,7 +409,7 @@ PROPS["C15"] = dict(
     level="exploration",
     rule=("4-6 real nodes with a keyring (16/24/32-byte keys), outgoing verification on, label none/'conf', protocol versions 1-5 per node, compression on/off, optionally created with an empty keyring and keyed at run time before the first send; the history is built to reach every send site: probes with ack payloads, one node's inbound UDP cut for 2.5 s (indirect ping requests, relayed "
           "pings, nacks, TCP fallback pings and their acks; optionally its streams too so that suspicion, death and refutation traffic appears), "
-          "SendBestEffort, SendReliable, user gossip, UpdateNode, join and periodic push/pull in both directions, plaintext and garbage streams from an outsider "
+          "SendBestEffort, SendReliable and the older entry points SendTo / SendToAddress / SendToUDP / SendToTCP, user gossip, UpdateNode, join and periodic push/pull in both directions, plaintext and garbage streams from an outsider "
           "(error replies), a graceful leave, and optionally a key rotation in progress (new key installed everywhere at 4 s, each node switching at its own "
           "instant). Oracle on every packet and every stream write handed to the transport by a real node: the cleartext label header is exactly the "
           "configured label, the rest opens with the independent AES-GCM implementation under the sender's primary key at the send instant with the label "
